@@ -73,6 +73,8 @@ type Gen struct {
 	entry      *State
 	stack      []*ssa.Function
 	needDivFns bool
+	useElemFn  bool
+	elemFns    map[string]string
 	needStrEq  bool
 	needStrCmp bool
 	needStrNum bool
